@@ -482,6 +482,250 @@ fn ident_family<const C: usize>(cx: &mut Ctx) -> u64 {
     cases
 }
 
+
+// ---------------------------------------------------------------------------------------------
+// Ownership at capacity boundaries (C02, C10, C15): elements with destructors and counted clones.
+// ---------------------------------------------------------------------------------------------
+thread_local! {
+    /// per-object state: 1 = live, 2 = destroyed; index = object id
+    static OBJ: std::cell::RefCell<Vec<u8>> = const { std::cell::RefCell::new(Vec::new()) };
+    /// what went wrong inside Clone / Drop of an element (reported by the case that was running)
+    static OBJ_ERR: std::cell::RefCell<Vec<String>> = const { std::cell::RefCell::new(Vec::new()) };
+    static CLONES: std::cell::Cell<u64> = const { std::cell::Cell::new(0) };
+}
+const OMAGIC: u32 = 0x5EED_0B1E;
+fn obj_new() -> u32 {
+    OBJ.with(|o| {
+        let mut o = o.borrow_mut();
+        o.push(1);
+        (o.len() - 1) as u32
+    })
+}
+fn obj_check(id: u32, cookie: u32, what: &str) -> bool {
+    let ok = cookie == (OMAGIC ^ id) && OBJ.with(|o| o.borrow().get(id as usize).copied()) == Some(1);
+    if !ok {
+        OBJ_ERR.with(|e| e.borrow_mut().push(format!("{what} of an element that is not live (id field {id}, cookie {cookie:#x})")));
+    }
+    ok
+}
+fn obj_drop(id: u32, cookie: u32) {
+    if obj_check(id, cookie, "drop") {
+        OBJ.with(|o| o.borrow_mut()[id as usize] = 2);
+    }
+}
+fn obj_live() -> usize {
+    OBJ.with(|o| o.borrow().iter().filter(|x| **x == 1).count())
+}
+fn obj_reset() {
+    OBJ.with(|o| o.borrow_mut().clear());
+    OBJ_ERR.with(|e| e.borrow_mut().clear());
+    CLONES.with(|c| c.set(0));
+}
+/// An element with a destructor: key (`==` on `x` only) or value.
+#[derive(Debug)]
+struct Ob {
+    id: u32,
+    cookie: u32,
+    x: u16,
+}
+impl Ob {
+    fn new(x: u16) -> Ob {
+        let id = obj_new();
+        Ob { id, cookie: OMAGIC ^ id, x }
+    }
+}
+impl PartialEq for Ob {
+    fn eq(&self, o: &Ob) -> bool {
+        obj_check(self.id, self.cookie, "comparison");
+        obj_check(o.id, o.cookie, "comparison");
+        self.x == o.x
+    }
+}
+impl Eq for Ob {}
+impl Clone for Ob {
+    fn clone(&self) -> Ob {
+        obj_check(self.id, self.cookie, "clone");
+        CLONES.with(|c| c.set(c.get() + 1));
+        Ob::new(self.x)
+    }
+}
+impl Drop for Ob {
+    fn drop(&mut self) {
+        obj_drop(self.id, self.cookie);
+        self.cookie = 0xDEAD_DEAD;
+    }
+}
+
+fn build_own<const C: usize>(f: usize, o: Order) -> Map<Ob, Ob, C> {
+    let (plain, _) = build_map::<C>(f, o);
+    let mut m: Map<Ob, Ob, C> = Map::new();
+    for (k, v) in plain.iter() {
+        m.insert(Ob::new(*k), Ob::new(*v));
+    }
+    m
+}
+
+/// Every stored element is live, seen once; returns the sorted key codes.
+fn own_contents<const C: usize>(m: &Map<Ob, Ob, C>) -> Vec<(u16, u16)> {
+    let mut v: Vec<(u16, u16)> = m
+        .iter()
+        .map(|(k, v)| {
+            obj_check(k.id, k.cookie, "iteration");
+            obj_check(v.id, v.cookie, "iteration");
+            (k.x, v.x)
+        })
+        .collect();
+    v.sort_unstable();
+    v
+}
+
+/// C02 / C10 / C15 with destructors at every capacity of the family: clone, clone_from, drains and consuming
+/// iterators cut at several points (dropped or forgotten), retain, clear, removals, replacements, a rejected
+/// insertion, bulk construction - each from a freshly built full / nearly full / half full / small container in
+/// three internal orders; nothing is destroyed twice, nothing stays alive after everything was dropped, and a
+/// clone makes exactly one clone per stored key and value.
+fn own_family<const C: usize>(cx: &mut Ctx) -> u64 {
+    let mut cases = 0u64;
+    for f in fills(C) {
+        for o in ORDERS {
+            cx.here.path = vec![format!("Map<Ob,Ob,{C}> (elements with destructors) filled with keys 0..{f} ({o:?})")];
+            let want: Vec<(u16, u16)> = (0..f as u16).map(|k| (k, k.wrapping_mul(3))).collect();
+            macro_rules! own {
+                ($name:expr, $pm:expr, $leak:expr, |$m:ident| $body:block) => {if ($pm) & cx.enabled != 0 {
+                    cx.here.op = $name.to_string();
+                    cx.evaluations += 1;
+                    cx.nontrivial += 1;
+                    cases += 1;
+                    obj_reset();
+                    {
+                        let mut $m = build_own::<C>(f, o);
+                        let _ = &mut $m;
+                        $body
+                    }
+                    let errs: Vec<String> = OBJ_ERR.with(|e| e.borrow().clone());
+                    cx.check($pm, errs.is_empty(), || format!("{}: {}", $name, errs.join("; ")));
+                    let live = obj_live();
+                    let leak: usize = $leak;
+                    cx.check($pm, live <= leak, || format!("{}: {live} elements are still alive after everything was dropped (at most {leak} may be leaked)", $name));
+                }};
+            }
+            own!("clone, drop the clone, then the original", C15 | C02, 0, |m| {
+                let before = CLONES.with(|c| c.get());
+                let c = m.clone();
+                let made = CLONES.with(|c| c.get()) - before;
+                cx.check(C15, made == 2 * f as u64, || format!("clone() of {f} entries made {made} element clones, expected {}", 2 * f));
+                cx.check(C15, own_contents(&c) == want && own_contents(&m) == want && c.len() == f, || "the clone's entries differ from the original's".to_string());
+                let live = obj_live();
+                cx.check(C15 | C02, live == 4 * f, || format!("after clone() {live} elements are alive, expected {}", 4 * f));
+                drop(c);
+                cx.check(C15 | C02, own_contents(&m) == want && obj_live() == 2 * f, || "dropping the clone touched the original's elements".to_string());
+            });
+            own!("clone, drop the original, then the clone", C15 | C02, 0, |m| {
+                let c = m.clone();
+                drop(std::mem::replace(&mut m, Map::new()));
+                cx.check(C15 | C02, own_contents(&c) == want && obj_live() == 2 * f, || "dropping the original touched the clone's elements".to_string());
+            });
+            for tf in [0usize, C / 2, C] {
+                own!(format!("clone_from into a target holding {tf} other entries"), C15 | C02, 0, |m| {
+                    let mut d: Map<Ob, Ob, C> = Map::new();
+                    for k in 0..tf as u16 {
+                        d.insert(Ob::new(40000 + k), Ob::new(1));
+                    }
+                    d.clone_from(&m);
+                    cx.check(C15, own_contents(&d) == want && own_contents(&m) == want, || "clone_from: the target differs from the source".to_string());
+                    cx.check(C15 | C02, obj_live() == 4 * f, || format!("after clone_from {} elements are alive, expected {}", obj_live(), 4 * f));
+                });
+            }
+            for take in [0usize, 1, f / 2, f] {
+                if take > f {
+                    continue;
+                }
+                for forget in [false, true] {
+                    own!(format!("drain, take {take}, {}", if forget { "forget" } else { "drop" }), C10 | C02, if forget { 2 * (f - take) } else { 0 }, |m| {
+                        let mut got = Vec::new();
+                        {
+                            let mut d = m.drain();
+                            for _ in 0..take {
+                                got.push(d.next().expect("drain item"));
+                            }
+                            cx.check(C10, d.len() == f - take, || format!("drain().len() is {} after {take} of {f} items", d.len()));
+                            if forget {
+                                std::mem::forget(d);
+                            }
+                        }
+                        cx.check(C10, m.is_empty() && m.iter().next().is_none(), || "the map is not empty after drain()".to_string());
+                        for k in 0..C as u16 {
+                            m.insert(Ob::new(k), Ob::new(5));
+                        }
+                        cx.check(C10, m.len() == C, || "the drained map cannot be refilled to capacity".to_string());
+                        drop(got);
+                    });
+                }
+                own!(format!("into_iter, take {take}, drop"), C10 | C02, 0, |m| {
+                    let mut it = std::mem::replace(&mut m, Map::new()).into_iter();
+                    let got: Vec<(Ob, Ob)> = it.by_ref().take(take).collect();
+                    cx.check(C10, it.len() == f - take && got.len() == take, || format!("into_iter().len() is {} after {take} of {f} items", it.len()));
+                    drop(it);
+                    cx.check(C10 | C02, got.iter().all(|(k, v)| obj_check(k.id, k.cookie, "use of a yielded key") && obj_check(v.id, v.cookie, "use of a yielded value")), || "an element yielded by into_iter is not live".to_string());
+                });
+                own!(format!("into_keys / into_values, take {take}, drop"), C10 | C02, 0, |m| {
+                    let c = m.clone();
+                    let mut ik = std::mem::replace(&mut m, Map::new()).into_keys();
+                    let ks: Vec<Ob> = ik.by_ref().take(take).collect();
+                    drop(ik);
+                    let mut iv = c.into_values();
+                    let vs: Vec<Ob> = iv.by_ref().take(take).collect();
+                    cx.check(C10, iv.len() == f - take, || "into_values().len() is wrong".to_string());
+                    drop(iv);
+                    cx.check(C10 | C02, ks.iter().chain(vs.iter()).all(|k| obj_check(k.id, k.cookie, "use of a yielded element")), || "an element yielded by into_keys / into_values is not live".to_string());
+                });
+            }
+            own!("retain(even keys)", C02, 0, |m| {
+                m.retain(|k, _| k.x % 2 == 0);
+                cx.check(C02, own_contents(&m) == want.iter().copied().filter(|(k, _)| k % 2 == 0).collect::<Vec<_>>(), || "retain(even): contents".to_string());
+                cx.check(C02, obj_live() == 2 * m.len(), || format!("after retain {} elements are alive but {} are stored", obj_live(), 2 * m.len()));
+            });
+            own!("clear, then reuse", C02, 0, |m| {
+                m.clear();
+                cx.check(C02, obj_live() == 0 && m.is_empty(), || format!("after clear() {} elements are still alive", obj_live()));
+                m.insert(Ob::new(1), Ob::new(1));
+            });
+            for k in [0usize, f / 2, f.saturating_sub(1)] {
+                if k >= f {
+                    continue;
+                }
+                own!(format!("remove / remove_entry / replace of key {k}"), C02, 0, |m| {
+                    let probe = Ob::new(k as u16);
+                    let r = m.insert(Ob::new(k as u16), Ob::new(7));
+                    cx.check(C02, r.as_ref().is_some_and(|v| obj_check(v.id, v.cookie, "use of the displaced value")) && obj_live() == 2 * f + 2, || format!("insert over key {k}: {} elements alive, expected {}", obj_live(), 2 * f + 2));
+                    let r2 = m.insert_key_value(Ob::new(k as u16), Ob::new(8));
+                    cx.check(C02, r2.as_ref().is_some_and(|(kk, v)| obj_check(kk.id, kk.cookie, "use of the old key") && obj_check(v.id, v.cookie, "use of the old value")), || "insert_key_value handed back a dead pair".to_string());
+                    let e = m.remove_entry(&probe);
+                    cx.check(C02, e.as_ref().is_some_and(|(kk, v)| obj_check(kk.id, kk.cookie, "use of the removed key") && obj_check(v.id, v.cookie, "use of the removed value")), || "remove_entry handed back a dead pair".to_string());
+                    cx.check(C02, m.len() == f - 1 && own_contents(&m).len() == f - 1, || "after remove_entry the stored elements are not all live".to_string());
+                });
+            }
+            if f == C {
+                own!("rejected insertion into the full map", C02 | C03, 0, |m| {
+                    let r = catch_unwind(AssertUnwindSafe(|| m.insert(Ob::new(50000), Ob::new(1))));
+                    cx.check(C03, r.is_err(), || "insert of a new key into the full map did not panic".to_string());
+                    cx.check(C02 | C03, obj_live() == 2 * f && own_contents(&m) == want, || format!("after the rejected insert {} elements are alive, expected {}", obj_live(), 2 * f));
+                });
+            }
+            own!("from_iter of clones of its entries, twice over", C02 | C16, 0, |m| {
+                let items: Vec<(Ob, Ob)> = m.iter().chain(m.iter()).map(|(k, v)| (k.clone(), v.clone())).collect();
+                let c: Map<Ob, Ob, C> = items.into_iter().collect();
+                cx.check(C16 | C02, own_contents(&c) == want && obj_live() == 4 * f, || format!("from_iter: {} elements alive, expected {}", obj_live(), 4 * f));
+                let s: Set<Ob, C> = m.keys().cloned().collect();
+                let mut s2 = s.clone();
+                s2.extend(m.keys().cloned());
+                cx.check(C16 | C02, s2.len() == f && s == s2 && obj_live() == 6 * f, || format!("Set clone/extend: {} elements alive, expected {}", obj_live(), 6 * f));
+            });
+        }
+    }
+    cases
+}
+
 /// Set algebra and equality on elements wider than a machine word, all fill levels of both operands.
 fn wide_elem_family<const C: usize, const D: usize>(cx: &mut Ctx) -> u64 {
     type W = (u64, u64);
@@ -547,6 +791,9 @@ fn run_cap<const C: usize, const D: usize>(rep: &mut EngineReport) {
     }
     if en & (C12 | C11) != 0 {
         d += ident_family::<C>(&mut cx);
+    }
+    if en & (C02 | C10 | C15) != 0 {
+        d += own_family::<C>(&mut cx);
     }
     cx.sample(|| J::obj().set("capacity", C).set("fill_levels", format!("{:?}", fills(C))).set("orders", "ascending, descending, shuffled by swap-removes"));
     rep.configs.push(
